@@ -107,6 +107,14 @@ def run(ctx):
         i = sorted(corr_bad)[0]
         ctx.violation("correspondence", {"what": "correspondence Run/RunLoop.v vs CsvPath.next/collect/fast_forward no longer checks (Harness/RunCmp.run_agree); "
                                          "theorems C07_* are about the model only", "disagreeing_case": {"job": pairs[i][0], "impl": pairs[i][1]}}, no_input=True)
+    # the translator tie for the per-record step: CsvPath._consider_line (with raise_match_count_if, stop(), LineMonitor.is_last_line_and_blank) as
+    # written in the source of the tree under test, regenerated and (when the text differs from the checked-in Run/RunSrc.v) re-proved equal to the model
+    import srctie
+    rtie = srctie.check(ctx, "runstep")
+    if rtie["status"] in ("untranslatable", "unproved") and not ctx.violations:
+        ctx.violation("source-tie", {"what": "the translation of CsvPath._consider_line from csvpath/csvpath.py is no longer proved equal to the run-loop model's per-record step: theorem "
+                                             "consider_line_src_eq (C07_step_source) does not check against the source of this tree; the generated cases of this run found no input on which the property fails",
+                                     "theorem": "consider_line_src_eq (C07_step_source)", "tie": rtie}, no_input=True)
     ctx.coverage.update({
         "evaluations": len(jobs) + len(nexts_jobs),
         "distinct_nontrivial": len(nontrivial),
@@ -121,6 +129,7 @@ def run(ctx):
         "relational_failures": len(fails),
         "runs_with_exception_excluded_from_correspondence": sum(1 for o in res if o["exc"]),
     })
+    ctx.coverage["source_tie_run_step"] = {"status": rtie["status"], "detail": rtie["detail"][:400]}
 
 
 def replay(ctx, payload):
